@@ -82,11 +82,12 @@ func (vc *FuncVC) logComp(prefix, label, what, sort string) string {
 }
 
 type logEntry struct {
-	w   *Watch
-	tag Term
+	w        *Watch
+	tag      Term
+	retTypes []types.Type
 }
 
-func (vc *FuncVC) logCall(w *Watch, recv *Term, args []Term) logEntry {
+func (vc *FuncVC) logCall(w *Watch, recv *Term, args []Term, argTypes []types.Type) logEntry {
 	L := w.Label
 	cntC := vc.logComp("", L, "cnt", "")
 	cnt := vc.cur.get(cntC)
@@ -111,13 +112,19 @@ func (vc *FuncVC) logCall(w *Watch, recv *Term, args []Term) logEntry {
 	}
 	for i, a := range args {
 		set(fmt.Sprintf("a%d", i), a.Sort, a)
+		if i < len(argTypes) {
+			vc.logTypes[vc.logComp("", L, fmt.Sprintf("a%d", i), a.Sort)] = argTypes[i]
+		}
 	}
-	return logEntry{w, tag}
+	return logEntry{w: w, tag: tag}
 }
 
 func (vc *FuncVC) logReturn(le logEntry, rets []Term) {
 	for i, r := range rets {
 		c := vc.logComp("", le.w.Label, fmt.Sprintf("r%d", i), r.Sort)
+		if i < len(le.retTypes) {
+			vc.logTypes[c] = le.retTypes[i]
+		}
 		vc.cur = vc.cur.set(c, Store(vc.cur.get(c), le.tag, r))
 	}
 }
@@ -182,7 +189,11 @@ func (vc *FuncVC) execCall(in ssa.Instruction, c *ssa.CallCommon, res ssa.Value)
 	var entries []logEntry
 	for _, w := range vc.watches {
 		if vc.matchWatch(w, name, kind) {
-			entries = append(entries, vc.logCall(w, recv, args))
+			var ats []types.Type
+			for _, a := range c.Args {
+				ats = append(ats, a.Type())
+			}
+			entries = append(entries, vc.logCall(w, recv, args, ats))
 		}
 	}
 	var result *Val
@@ -191,6 +202,11 @@ func (vc *FuncVC) execCall(in ssa.Instruction, c *ssa.CallCommon, res ssa.Value)
 		sig = fn.Signature
 	} else {
 		sig = c.Signature()
+	}
+	for i := range entries {
+		for k := 0; k < sig.Results().Len(); k++ {
+			entries[i].retTypes = append(entries[i].retTypes, sig.Results().At(k).Type())
+		}
 	}
 	con := vc.P.CS.Funcs[name]
 	if con != nil && vc.C != nil && vc.C.Opaque[vc.P.shortName(name)] {
@@ -291,7 +307,7 @@ func (vc *FuncVC) applyContract(con *Contract, name string, fn *ssa.Function, si
 	}
 	short := vc.P.shortName(name)
 	for n, r := range con.Requires {
-		f := vc.evalBool(env, r)
+		f := vc.evalGoal(env, r)
 		vc.oblige("pre", fmt.Sprintf("pre.%s.%s", short, clauseName(r, n)), vc.g(), f, "precondition of "+short+": "+r.Src)
 	}
 	// result
@@ -583,7 +599,7 @@ func (vc *FuncVC) execAppend(c *ssa.CallCommon, res ssa.Value) {
 	vc.assume(Implies(Cmp("<=", newLen, sCap), inPlace))
 	a := vc.cur.get("alloc")
 	nArr := vc.fresh("app.arr", SInt)
-	vc.assume(Implies(Not(inPlace), And(Cmp("<", IntLit(0), nArr), Not(Select(a, nArr, SBool)))))
+	vc.assume(Implies(Not(inPlace), And(Cmp("<", IntLit(0), nArr), Not(Select(a, nArr, SBool)), Eq(vc.baseOf(nArr), nArr))))
 	vc.assume(Implies(inPlace, Eq(nArr, sArr)))
 	vc.cur = vc.cur.set("alloc", Store(a, nArr, tTrue))
 	nCap := vc.fresh("app.cap", SInt)
@@ -614,8 +630,9 @@ func (vc *FuncVC) execAppend(c *ssa.CallCommon, res ssa.Value) {
 			// frame: objects other than the written elements keep their fields
 			vc.assume(T(fmt.Sprintf("(forall ((r Int)) (! (=> (not (exists ((j Int)) (and (<= (+ %s %s) j) (< j (+ %s %s)) (= r (%s %s j))))) (or (= (select %s r) (select %s r)) (not %s))) :pattern ((select %s r))))",
 				nOff.S, sLen.S, nOff.S, newLen.S, er, nArr.S, nw.S, old.S, inPlace.S, nw.S), SBool))
-			vc.assume(T(fmt.Sprintf("(forall ((r Int)) (! (=> (and (not %s) (select %s r)) (= (select %s r) (select %s r))) :pattern ((select %s r))))",
-				inPlace.S, a.S, nw.S, old.S, nw.S), SBool))
+			bf := vc.declFun("baseOf", []string{SInt}, SInt)
+			vc.assume(T(fmt.Sprintf("(forall ((r Int)) (! (=> (and (not %s) (select %s (%s r))) (= (select %s r) (select %s r))) :pattern ((select %s r))))",
+				inPlace.S, a.S, bf, nw.S, old.S, nw.S), SBool))
 			vc.cur = vc.cur.set(cn, nw)
 		}
 		vc.onceAssume("elemref.alloc", T("(forall ((a Int) (j Int)) (! (> (|elemref| a j) 0) :pattern ((|elemref| a j))))", SBool))
@@ -688,33 +705,45 @@ func (vc *FuncVC) execCopy(c *ssa.CallCommon, res ssa.Value) {
 
 // ---------- library functions with built-in definitions ----------
 
+// hasAffix: strings.HasPrefix / strings.HasSuffix. A short literal affix is
+// expanded to byte comparisons; otherwise an uninterpreted predicate with the
+// facts that follow from it.
+func (vc *FuncVC) hasAffix(s, p Term, lit *string, suffix bool) Term {
+	if lit != nil && len(*lit) <= 16 {
+		n := T(app("len", s), SInt)
+		cs := []Term{Cmp(">=", n, IntLit(int64(len(*lit))))}
+		for i := 0; i < len(*lit); i++ {
+			var idx Term
+			if !suffix {
+				idx = IntLit(int64(i))
+			} else {
+				idx = Arith("+", Arith("-", n, IntLit(int64(len(*lit)))), IntLit(int64(i)))
+			}
+			cs = append(cs, Eq(T(app("at", s, idx), SInt), IntLit(int64((*lit)[i]))))
+		}
+		return And(cs...)
+	}
+	name := "strings.HasPrefix"
+	if suffix {
+		name = "strings.HasSuffix"
+	}
+	f := vc.declFun("pf!"+name+"!0", []string{SStr, SStr}, SBool)
+	vc.onceAssume(name+".len", T(fmt.Sprintf("(forall ((s Str) (p Str)) (! (=> (%s s p) (<= (len p) (len s))) :pattern ((%s s p))))", f, f), SBool))
+	if !suffix {
+		vc.onceAssume(name+".at", T(fmt.Sprintf("(forall ((s Str) (p Str) (k Int)) (! (=> (and (%s s p) (<= 0 k) (< k (len p))) (= (at s k) (at p k))) :pattern ((%s s p) (at p k))))", f, f), SBool))
+	}
+	return T(app(f, s, p), SBool)
+}
+
 func (vc *FuncVC) libCall(name string, c *ssa.CallCommon, args []Term) (*Val, bool) {
 	bt := types.Typ[types.Bool]
 	switch name {
 	case "strings.HasPrefix", "strings.HasSuffix":
-		s := args[0]
-		if lit, ok := constString(c.Args[1]); ok && len(lit) <= 16 {
-			n := T(app("len", s), SInt)
-			cs := []Term{Cmp(">=", n, IntLit(int64(len(lit))))}
-			for i := 0; i < len(lit); i++ {
-				var idx Term
-				if name == "strings.HasPrefix" {
-					idx = IntLit(int64(i))
-				} else {
-					idx = Arith("+", Arith("-", n, IntLit(int64(len(lit)))), IntLit(int64(i)))
-				}
-				cs = append(cs, Eq(T(app("at", s, idx), SInt), IntLit(int64(lit[i]))))
-			}
-			return &Val{T: And(cs...), Typ: bt}, true
+		var lit *string
+		if l, ok := constString(c.Args[1]); ok {
+			lit = &l
 		}
-		f := vc.declFun("pf!"+name+"!0", []string{SStr, SStr}, SBool)
-		r := T(app(f, args[0], args[1]), SBool)
-		vc.assume(Implies(r, Cmp("<=", T(app("len", args[1]), SInt), T(app("len", args[0]), SInt))))
-		if name == "strings.HasPrefix" {
-			p := args[1]
-			vc.assume(Implies(r, T(fmt.Sprintf("(forall ((k Int)) (! (=> (and (<= 0 k) (< k (len %s))) (= (at %s k) (at %s k))) :pattern ((at %s k))))", p.S, s.S, p.S, p.S), SBool)))
-		}
-		return &Val{T: r, Typ: bt}, true
+		return &Val{T: vc.hasAffix(args[0], args[1], lit, name == "strings.HasSuffix"), Typ: bt}, true
 	}
 	return nil, false
 }
@@ -750,7 +779,7 @@ func (vc *FuncVC) execGo(x *ssa.Go) {
 	for _, w := range vc.watches {
 		pk, pn := splitWord(w.Pattern)
 		if pk == "go" && (pn == name || pn == vc.P.shortName(name)) {
-			vc.logCall(w, nil, args)
+			vc.logCall(w, nil, args, nil)
 		}
 	}
 	_ = kind
@@ -761,14 +790,20 @@ func (vc *FuncVC) execGo(x *ssa.Go) {
 
 // ---------- frame check ----------
 
-// checkFrame: at a return, every component outside the assigns clause is unchanged
-// on objects that were allocated at entry.
-func (vc *FuncVC) checkFrame() {
-	if vc.C == nil || !vc.C.HasAssgn {
-		return
+// frameRelevant: components subject to the frame check (caller-visible memory).
+func (vc *FuncVC) frameRelevant(comp string) bool {
+	if strings.Contains(comp, "#L") || strings.HasPrefix(comp, "IT!") || strings.HasPrefix(comp, "LG!") || comp == "clock" || comp == "alloc" {
+		return false
+	}
+	return true
+}
+
+// assignedLocs resolves the function's own assigns clause at entry.
+func (vc *FuncVC) assignedLocs() map[string][]*Loc {
+	if vc.assigned != nil {
+		return vc.assigned
 	}
 	env := vc.newEnv(vc.entryState, vc.entryState)
-	type ex struct{ ref Term }
 	allowed := map[string][]*Loc{}
 	for _, d := range vc.C.Assigns {
 		if strings.HasPrefix(d, "comp:") {
@@ -783,39 +818,51 @@ func (vc *FuncVC) checkFrame() {
 			allowed[l.Comp] = append(allowed[l.Comp], l)
 		}
 	}
+	vc.assigned = allowed
+	return allowed
+}
+
+// frameFormula: comp is unchanged w.r.t. the entry state on every object that
+// was allocated at entry, except the locations named by the assigns clause.
+func (vc *FuncVC) frameFormula(comp string, st *State) Term {
+	allowed := vc.assignedLocs()
+	now := st.get(comp)
+	before := vc.entryState.get(comp)
+	if now.S == before.S {
+		return tTrue
+	}
+	for _, l := range allowed[comp] {
+		if l == nil {
+			return tTrue
+		}
+	}
+	if strings.HasPrefix(comp, "G!") {
+		if len(allowed[comp]) > 0 {
+			return tTrue
+		}
+		return Eq(now, before)
+	}
 	a0 := vc.entryState.get("alloc")
+	var exc []string
+	for _, l := range allowed[comp] {
+		exc = append(exc, fmt.Sprintf("(not (= r %s))", l.Ref.S))
+	}
+	b := vc.declFun("baseOf", []string{SInt}, SInt)
+	vc.seq++
+	return T(fmt.Sprintf("(forall ((r Int)) (! (=> (and (select %s (%s r)) %s) (= (select %s r) (select %s r))) :pattern ((select %s r))))", a0.S, b, strings.Join(append(exc, "true"), " "), now.S, before.S, now.S), SBool)
+}
+
+// checkFrame: at a return, every component outside the assigns clause is unchanged
+// on objects that were allocated at entry.
+func (vc *FuncVC) checkFrame() {
+	if vc.C == nil || !vc.C.HasAssgn {
+		return
+	}
 	for _, comp := range sortedKeys(vc.comps) {
-		if strings.Contains(comp, "#L") || strings.HasPrefix(comp, "IT!") || strings.HasPrefix(comp, "LG!") || comp == "clock" || comp == "alloc" {
+		if !vc.frameRelevant(comp) {
 			continue
 		}
-		now := vc.cur.get(comp)
-		before := vc.entryState.get(comp)
-		if now.S == before.S {
-			continue
-		}
-		whole := false
-		for _, l := range allowed[comp] {
-			if l == nil {
-				whole = true
-			}
-		}
-		if whole {
-			continue
-		}
-		var f Term
-		if strings.HasPrefix(comp, "G!") {
-			if len(allowed[comp]) > 0 {
-				continue
-			}
-			f = Eq(now, before)
-		} else {
-			var exc []string
-			for _, l := range allowed[comp] {
-				exc = append(exc, fmt.Sprintf("(not (= r %s))", l.Ref.S))
-			}
-			f = T(fmt.Sprintf("(forall ((r Int)) (=> (and (select %s r) %s) (= (select %s r) (select %s r))))", a0.S, strings.Join(append(exc, "true"), " "), now.S, before.S), SBool)
-		}
-		vc.oblige("frame", "frame."+comp, vc.g(), f, "writes outside the assigns clause to "+comp)
+		vc.oblige("frame", "frame."+comp, vc.g(), vc.frameFormula(comp, vc.cur), "writes outside the assigns clause to "+comp)
 	}
 }
 
